@@ -44,7 +44,9 @@ class Regex(Expression):
     def _compile(self, out, flags):
         func = out.state[self._match_func()]
         match = out.var('match', func(TEXT, POS))
-        end = match.end()
+        # (Not "match.end()": a start offset beyond the end of the text is
+        # clamped by the matcher, and the position must not move backwards.)
+        end = POS + (match.end() - match.start())
 
         with out.IF(match):
             out += RESULT << match.group(0)
